@@ -34,6 +34,14 @@ hooks, exec failures, deaths at every kernel-call boundary, reloads, `kill` / `s
   escalation — then sends nothing at all (`children()` raises `NoSuchProcess`, which it swallows):
   neither to the pid nor to former children.
 
+* `C03_run_sigkill_never_first_signal_in_step`, `C03_run_sigkill_never_first_signal` — **the log-level
+  form**: in every step that is not a `signal` / `kill` / `set` / `add` request (after any history), and along
+  every run without such requests, every SIGKILL entry `sig p 9 st ""` of the log is preceded by an
+  earlier signal entry for `p` — the daemon escalates, it never opens with SIGKILL —, the exemptions being
+  a watcher with `stop_signal = 9`, a consulted `before_signal` hook, and pids that are not children of the
+  daemon (a worker's own children).  The four requests are exempt because they may ask for signal 9
+  themselves (`C03_counterexample_requested_sigkill_is_first`).
+
 Which signals are meant: the escalation is the call `sendSignalProcess u p 9 true` in `killFinish`
 (`C03_escalation_is_sigkill`).  A SIGKILL entry in the log can also stem from a `signal` / `kill` request
 that names signal 9 or from a watcher whose `stop_signal` is 9 — then it *is* the requested / configured
@@ -42,7 +50,8 @@ escalation.  The ghost log does not tell the two apart (`via` only separates `se
 `terminate` and outside signals), so the statements are about the code path: what every pending kill
 loop knows, and what its escalation does from such a state.
 
-Mechanism (Core/Sig*.lean): `SI` is contextual — the interpreter keeps it only for tasks whose
+Mechanism (Core/Sig*.lean): `SI J` (`J = none`: every run; `J = some ⟨n0, X⟩`: with the justification of
+the SIGKILL entries from log position `n0` on) is contextual — the interpreter keeps it only for tasks whose
 continuation was pending (`TaskOk`) — so it is proved with its own Hoare-style chain
 (`exec_si : RecSI (exec n)`), not with the writer-obligation chains of Generic.lean; what a
 continuation knows is monotone along every state change (`Ext`).
@@ -53,7 +62,7 @@ namespace Circus.Core
 def PendingLoop (s : State) (u p sig i polls : Nat) : Prop :=
   (∃ f ∈ s.frames, f.k = .killWait u p sig i polls) ∨ (∃ v w, Ready.resume (.killWait u p sig i polls) v w ∈ s.ready)
 
-theorem PendingLoop.ok {s : State} (h : SI s) {u p sig i polls : Nat} (hp : PendingLoop s u p sig i polls) :
+theorem PendingLoop.ok {s : State} (h : SI none s) {u p sig i polls : Nat} (hp : PendingLoop s u p sig i polls) :
     LoopOk s u p sig i polls := by
   rcases hp with ⟨f, hf, hk⟩ | ⟨v, w, hr⟩
   · have := h.fr f hf
@@ -63,7 +72,7 @@ theorem PendingLoop.ok {s : State} (h : SI s) {u p sig i polls : Nat} (hp : Pend
 
 /-- **the signal invariant holds in every reachable state** -/
 theorem C03_run_signal_invariant (cfg : List Watcher) (behavs : List Behav) (warm : Nat)
-    (hcfg : ∀ w ∈ cfg, w.pids = []) (ops : List Op) : SI (run (initState cfg behavs warm) ops) :=
+    (hcfg : ∀ w ∈ cfg, w.pids = []) (ops : List Op) : SI none (run (initState cfg behavs warm) ops) :=
   si_run _ ops (si_init cfg behavs warm hcfg)
 
 /-- **the frame invariant of `kill_process`**: in every reachable state, a pending kill loop
@@ -147,16 +156,7 @@ theorem C03_run_escalation_preceded_by_stop_signal (cfg : List Watcher) (behavs 
 
 /-- the escalation sends nothing to a pid its watcher does not list (`send_signal` returns at once) -/
 theorem C03_escalation_nothing_to_unlisted (u p sg : Nat) (s : State) (h : ¬ Listed s u p) :
-    sendSignal u p sg s = (true, s) := by
-  unfold sendSignal
-  simp only [bind]
-  have hc : ¬ (getW u s).1.pids.contains p = true := by
-    intro hc
-    apply h
-    unfold Listed
-    simpa using hc
-  erw [if_neg hc]
-  rfl
+    sendSignal u p sg s = (true, s) := sendSignal_unlisted u p sg s h
 
 theorem emit_blocked (o : Obs) (s : State) (h : s.blocked = true) : (emit o s).2 = s := by
   simp [emit, modS, h]
@@ -166,11 +166,16 @@ theorem emitEv_blocked (w t : String) (p : Option Nat) (x : String) (s : State) 
   simp [emitEv, modS, h]
 
 theorem blockedLeafS (l : List Obs) : LeafS (fun s => s.blocked = true ∧ s.log = l) where
-  emit := fun o _ s h => by
+  emit := fun o _ _ s h => by
     show (emit o s).2.blocked = true ∧ (emit o s).2.log = l
     rw [emit_blocked o s h.1]; exact h
-  kKill := fun p sg via s h => by
+  kKillN := fun p sg via _ s h => by
     show (kKill p sg via s).2.blocked = true ∧ (kKill p sg via s).2.log = l
+    simp only [kKill, bind, pure]
+    rw [emit_blocked _ _ (by exact h.1)]
+    exact h
+  kKill9 := fun p s h => by
+    show (kKill p 9 "" s).2.blocked = true ∧ (kKill p 9 "" s).2.log = l
     simp only [kKill, bind, pure]
     rw [emit_blocked _ _ (by exact h.1)]
     exact h
@@ -251,6 +256,72 @@ theorem C03_run_no_sigkill_to_reaped (cfg : List Watcher) (behavs : List Behav) 
     (sendSignalProcess u p sg r (run (initState cfg behavs warm) ops)).2.log = (run (initState cfg behavs warm) ops).log :=
   (C03_escalation_nothing_when_gone u p sg r _ (C03_run_reaped_is_gone cfg behavs warm hcfg ops p st hr)).2
 
+/-! ## the log: a SIGKILL is never the first signal the daemon sends a worker of its own accord -/
+
+theorem assignUids_stopSignal (cfg : List Watcher) (n : Nat) (w : Watcher) (hw : w ∈ assignUids cfg n) :
+    ∃ w0 ∈ cfg, w0.stopSignal = w.stopSignal := by
+  induction cfg generalizing n with
+  | nil => cases hw
+  | cons x xs ih =>
+    simp only [assignUids, List.mem_cons] at hw
+    rcases hw with rfl | hw
+    · exact ⟨x, List.mem_cons_self, rfl⟩
+    · obtain ⟨w0, hw0, h⟩ := ih (n + 1) hw
+      exact ⟨w0, List.mem_cons_of_mem _ hw0, h⟩
+
+theorem run_si_j {J : JMode} (s : State) (ops : List Op) (hsafe : ∀ op ∈ ops, OpSafe op) (h : SI J s) : SI J (run s ops) := by
+  induction ops generalizing s with
+  | nil => exact h
+  | cons o os ih =>
+    exact ih _ (fun op hop => hsafe op (List.mem_cons_of_mem _ hop)) (stepM_si_j o (hsafe o List.mem_cons_self) s h)
+
+/-- **SIGKILL is never the first signal — one step, after any history**: let `s` be any reachable state
+    (reached through any requests whatsoever) and `op` any stimulus other than a `signal`, `kill`, `set`
+    or `add` request (a timer firing, the periodic check, a death, `start` / `stop` / `restart` / `reload` /
+    `incr` / `decr` / `rm` / `quit` requests, termination signals, …).  Then every SIGKILL the daemon
+    sends through `Watcher.send_signal` during that step — an entry `sig p 9 st ""` of the log at a
+    position ≥ the length of the log of `s` — is preceded in the log by an earlier signal entry for the
+    same pid (the stop signal of the kill loop that now escalates), unless: some watcher's `stop_signal`
+    is 9 (then SIGKILL is the stop signal), or a `before_signal` hook has been consulted (it may have
+    vetoed the stop signal), or `p` is not a child of the daemon at all (a worker's own child, which
+    `send_signal_process` signals along with the worker). -/
+theorem C03_run_sigkill_never_first_signal_in_step (cfg : List Watcher) (behavs : List Behav) (warm : Nat)
+    (hcfg : ∀ w ∈ cfg, w.pids = []) (ops : List Op) (op : Op) (hop : OpSafe op)
+    (pre post : List Obs) (p : Nat) (st : PState)
+    (hl : (step (run (initState cfg behavs warm) ops) op).log = pre ++ Obs.sig p 9 st "" :: post)
+    (hn : (run (initState cfg behavs warm) ops).log.length ≤ pre.length) :
+    (∃ sg st', Obs.sig p sg st' "" ∈ pre) ∨
+    (∃ w ∈ (run (initState cfg behavs warm) ops).ws, w.stopSignal = 9) ∨
+    (∃ u, HookCalled (step (run (initState cfg behavs warm) ops) op) u "before_signal") ∨
+    (step (run (initState cfg behavs warm) ops) op).k.NDC p := by
+  have h0 := C03_run_signal_invariant cfg behavs warm hcfg ops
+  have hp := posInv_run _ ops (posInv_init cfg behavs warm)
+  have h1 := stepM_si_j op hop _ (h0.enter hp)
+  exact (h1.just _ rfl).log pre post p st hl hn
+
+/-- **SIGKILL is never the first signal — whole runs**: along every run none of whose stimuli is a
+    `signal`, `kill`, `set` or `add` request, from a configuration in which no watcher has `stop_signal`
+    9 and no `before_signal` hook is ever consulted, every SIGKILL the daemon sends to one of its own
+    children through `Watcher.send_signal` is preceded in the log by an earlier signal entry for that
+    pid: the daemon escalates, it never opens with SIGKILL.  (Stated with the three exemptions as
+    alternatives of the conclusion.) -/
+theorem C03_run_sigkill_never_first_signal (cfg : List Watcher) (behavs : List Behav) (warm : Nat)
+    (hcfg : ∀ w ∈ cfg, w.pids = []) (ops : List Op) (hsafe : ∀ op ∈ ops, OpSafe op)
+    (pre post : List Obs) (p : Nat) (st : PState)
+    (hl : (run (initState cfg behavs warm) ops).log = pre ++ Obs.sig p 9 st "" :: post) :
+    (∃ sg st', Obs.sig p sg st' "" ∈ pre) ∨
+    (∃ w ∈ cfg, w.stopSignal = 9) ∨
+    (∃ u, HookCalled (run (initState cfg behavs warm) ops) u "before_signal") ∨
+    (run (initState cfg behavs warm) ops).k.NDC p := by
+  have h0 := (si_init cfg behavs warm hcfg).enter (posInv_init cfg behavs warm)
+  have h1 := run_si_j _ ops hsafe h0
+  rcases (h1.just _ rfl).log pre post p st hl (Nat.zero_le _) with h | ⟨w, hw, h9⟩ | h | h
+  · exact Or.inl h
+  · obtain ⟨w0, hw0, he⟩ := assignUids_stopSignal cfg 1 w hw
+    exact Or.inr (Or.inl ⟨w0, hw0, he.trans h9⟩)
+  · exact Or.inr (Or.inr (Or.inl h))
+  · exact Or.inr (Or.inr (Or.inr h))
+
 /-! ## concrete runs -/
 
 /-- one worker that ignores the stop signal, graceful_timeout 200 ms = 2 polls -/
@@ -305,6 +376,42 @@ theorem C03_counterexample_vetoed_stop_signal_then_sigkill :
     HookCalled (run (initState c03Veto [{ term := none }] 0) c03Pre) 1 "before_signal" := by
   refine ⟨by decide +kernel, by decide +kernel, ?_⟩
   unfold HookCalled
+  decide +kernel
+
+/-- the stimuli of the run above are all safe (none is a `signal` / `kill` / `set` / `add` request) -/
+theorem stop_safe (name : String) (waiting : Bool) : msgSafe (some (stopReq name waiting)) := by
+  intro j nm hj hc
+  simp only [Option.some.injEq] at hj
+  subst hj
+  have : nm = "stop" := by
+    simp [stopReq, JVal.get?, List.lookup] at hc
+    exact hc.symm
+  subst this
+  unfold cmdSafe
+  decide +kernel
+
+example : ∀ op ∈ c03Pre ++ [.wake, .wake], OpSafe op := by
+  intro op hop
+  simp only [c03Pre, List.cons_append, List.nil_append, List.mem_cons, List.mem_nil_iff, or_false] at hop
+  rcases hop with rfl | rfl | rfl | rfl | rfl | rfl
+  all_goals first | trivial | exact stop_safe "a" true
+
+-- in that run the SIGKILL entry for 100 exists and the stop signal stands before it
+example : (c03Run [.wake, .wake]).log.map Obs.isNine =
+    [false, false, false, false, false, true, false, false, false, false, false] ∧
+    ((c03Run [.wake, .wake]).log.take 5).any (fun o => match o with | .sig 100 15 _ "" => true | _ => false) = true := by
+  decide +kernel
+
+/-- a `signal` request that names signal 9 -/
+def sig9Req : JVal :=
+  .obj [("command", .str "signal"), ("properties", .obj [("name", .str "a"), ("signum", .int 9)])]
+
+/-- **why `signal` / `kill` / `set` / `add` requests are exempt**: they may ask for signal 9 themselves.  After
+    `signal a 9` the log has a SIGKILL for pid 100 that no signal precedes — sent because it was asked
+    for, not as an escalation. -/
+theorem C03_counterexample_requested_sigkill_is_first :
+    hasSig (run (initState c03Cfg [{ term := none }] 0) [.start, .wake, .wake, .req "c" (some sig9Req)]).log 100 9 = true ∧
+    hasSig (run (initState c03Cfg [{ term := none }] 0) [.start, .wake, .wake, .req "c" (some sig9Req)]).log 100 15 = false := by
   decide +kernel
 
 end Circus.Core
